@@ -49,7 +49,7 @@ func (check) Cases(tier string) int {
 }
 
 func (check) Rule() string {
-	return "one sequence per case: 65% key=value flag (1-10 arguments over the keys a,b,c,l,a.b,a.c,l.0,l.1,l.0.k,c.0.b, a previous key reused w.p. 1/2, an identical earlier argument string repeated w.p. 1/6; 1 in 14 arguments has its '=' in an odd place (empty key \"=v\", \"=\", \"==x\", \"=a=b\", key==x, the empty argument), for both autoBool settings; values in every parse.Value syntax: uint/int/float/hex, bool words, null, bare words, single and double quoted, comma lists, [..] lists, {..} objects, nested, padded, trailing commas; empty value; bare key; malformed arguments (table + truncations of valid values) at a random position and w.p. 1/4 after it; autoBool off in 15% so that a bare key is the flag's own malformed form; 15% driven through a real flag.FlagSet/ConfigVar), 20% file flag (1-5 temp files .yaml/.yml/.json/.hjson holding JSON renderings of correlated dict trees, every argument after the first names an earlier path again w.p. 1/3, half of the sequences put a differing non-empty list under one key shared by all documents; 1 in 4 sequences spell members of top-level dictionaries as dotted keys; a missing file / unknown extension / truncated document / scalar document as the failing argument), 15% cfgutil.Collector directly (Add(cfg,nil)/Add(nil,nil)/Add(nil,err) histories, GetOptions). Option sets: PathSep(\".\") +- one of {ReplaceValues, ReplaceArrValues, AppendValues, PrependValues} +- VarExp (6% of key=value cases, never with ReplaceValues; primitive-valued references to keys of the initial config only; half of them with a Resolve option that alone knows ${ext}; 1 in 4 arguments there is a reference to the keys u/w or sets u/w, so that a reference may precede its target and the config is unreadable in between); initial config nil or a small dictionary. After EVERY Set/Add the config is read back and compared. Before every argument of the two flags (and after the last) w.p. 1/3 one or two read-only calls (String, Config, Get, Error) are interleaved; a read must change neither the config nor Error(). Non-trivial = at least two accepted settings before the first failure whose keys are equal or one a path prefix of the other (files/collector: share a top-level key or both carry a list); distinct = distinct (mode, option set, autoBool, initial config, argument texts)."
+	return "one sequence per case: 65% key=value flag (1-10 arguments over the keys a,b,c,l,a.b,a.c,l.0,l.1,l.0.k,c.0.b, a previous key reused w.p. 1/2, an identical earlier argument string repeated w.p. 1/6; 1 in 14 arguments has its '=' in an odd place (empty key \"=v\", \"=\", \"==x\", \"=a=b\", key==x, the empty argument), for both autoBool settings; values in every parse.Value syntax: uint/int/float/hex, bool words, null, bare words, single and double quoted, comma lists, [..] lists, {..} objects, nested, padded, trailing commas; empty value; bare key; malformed arguments (table + truncations of valid values) at a random position and w.p. 1/4 after it; autoBool off in 15% so that a bare key is the flag's own malformed form; 15% driven through a real flag.FlagSet/ConfigVar), 20% file flag (loader table: all four extensions / a random subset plus a \"\" fallback / only a fallback / yaml+yml+json, through NewFlagFiles or the public wrappers ConfigFilesVar, ConfigYAMLFilesVar, ConfigJSONFilesVar, ConfigFilesExtsVar; with a partial table 1 in 3 file names has a foreign extension .conf/.cfg/.txt/none; 1 in 8 sequences has VarExp and documents whose strings are ${...} references into the initial config; 1-5 temp files .yaml/.yml/.json/.hjson holding JSON renderings of correlated dict trees, every argument after the first names an earlier path again w.p. 1/3, half of the sequences put a differing non-empty list under one key shared by all documents; 1 in 4 sequences spell members of top-level dictionaries as dotted keys; a missing file / unknown extension / truncated document / scalar document as the failing argument), 15% cfgutil.Collector directly (Add(cfg,nil)/Add(nil,nil)/Add(nil,err) histories, GetOptions). Option sets: PathSep(\".\") +- one of {ReplaceValues, ReplaceArrValues, AppendValues, PrependValues} +- VarExp (6% of key=value cases, never with ReplaceValues; primitive-valued references to keys of the initial config only; half of them with a Resolve option that alone knows ${ext}; 1 in 4 arguments there is a reference to the keys u/w or sets u/w, so that a reference may precede its target and the config is unreadable in between); initial config nil or a small dictionary. In 1 of 5 sequences the case overwrites its own option slice (other separator, other policy) right after the flag/collector was created; the options given at creation stay the flag's options. After EVERY Set/Add the config is read back and compared. Before every argument of the two flags (and after the last) w.p. 1/3 one or two read-only calls (String, Config, Get, Error) are interleaved; a read must change neither the config nor Error(). Non-trivial = at least two accepted settings before the first failure whose keys are equal or one a path prefix of the other (files/collector: share a top-level key or both carry a list); distinct = distinct (mode, option set, autoBool, initial config, argument texts)."
 }
 
 func (check) Assumptions() []string {
@@ -60,6 +60,11 @@ func (check) Assumptions() []string {
 		"errors are compared by identity/text against the collector's own earlier report; against the reference only raw (non ucfg.Error) texts produced by the same function on the same input, for ucfg.Error only that both are ucfg.Error",
 		"not compared: Set's return value for failing or post-failure arguments, Add's return value at/after the failure, Add(cfg, err) with both non-nil, String() when the top level has a list part or holds NaN/Inf",
 		"canonical comparison: numbers by value, nil == {} == [] == absent key inside dictionaries",
+		"WHAT a merge yields is C01's matter, the flag only has to equal the sequential merges: padding nulls of a later indexed key (hosts.0=h1, hosts.1=h2 -> [null,h2]), null/[]/{}/blank values overriding a primitive but not a container, and ReplaceValues replacing the whole top level are generated and compared with the reference and the merge model, not judged against the explanatory 'so later occurrences override...' clause",
+		"a blank value (\"a= \") is not an empty value: it is parsed (to null) and merged",
+		"the file flag picks the loader registered for the extension, else the entry under \"\" (documented fallback), else the argument fails; every loader is given the flag's options",
+		"the flag's options are those in the slice at creation time; the caller overwriting its own slice afterwards must not reach the flag",
+		"not pinned and not generated: the value syntax under an IgnoreCommas option (the statement names parse.Value), resolver call counts / the moment a reference is evaluated, String() and key depth limits for keys of ~1e6 segments (C07), which of two spellings a duplicate-key message names (C05/C14 wording; only 'is a ucfg.Error' is compared)",
 		"inputs whose value ends right after an opening bracket or a comma inside brackets crash parse.Value (C07/C17 defect); generated in ~1% of malformed arguments and reported as panic:parse-unterminated-bracket",
 	}
 }
@@ -70,9 +75,29 @@ func (check) Assumptions() []string {
 type optSet struct {
 	pol    model.Policy
 	varexp bool
-	resolv bool // with VarExp: a Resolve option that knows the name "ext"
-	none   bool // no options at all (collector only)
-	swap   bool // policy option before PathSep
+	resolv bool   // with VarExp: a Resolve option that knows the name "ext"
+	none   bool   // no options at all (collector only)
+	swap   bool   // policy option before PathSep
+	sep    string // "" means "."
+}
+
+// scribbled returns the option set the case writes into ITS OWN option slice
+// after the flag was created (same length and order): another separator and,
+// where there is a policy slot, another policy.
+func (o optSet) scribbled() optSet {
+	a := o
+	a.sep = "/"
+	switch o.pol {
+	case model.PReplace:
+		a.pol = model.PAppend
+	case model.PArrReplace:
+		a.pol = model.PPrepend
+	case model.PAppend:
+		a.pol = model.PReplace
+	case model.PPrepend:
+		a.pol = model.PArrReplace
+	}
+	return a
 }
 
 func (o optSet) name() string {
@@ -118,7 +143,11 @@ func (o optSet) opts() []ucfg.Option {
 	if o.none {
 		return nil
 	}
-	l := []ucfg.Option{ucfg.PathSep(".")}
+	sep := "."
+	if o.sep != "" {
+		sep = o.sep
+	}
+	l := []ucfg.Option{ucfg.PathSep(sep)}
 	if p := polOpt(o.pol); p != nil {
 		if o.swap {
 			l = []ucfg.Option{p, l[0]}
@@ -636,6 +665,44 @@ type refState struct {
 	canon, canonNo       string
 	canonErr, canonNoErr error
 	dirty                bool
+
+	// twin for "the caller overwrote its option slice after creating the flag":
+	// every setting created and merged with the overwritten options
+	alt         *optSet
+	refAlt      *ucfg.Config
+	canonAlt    string
+	canonAltErr error
+}
+
+// enableAlt starts the twin; the initial config was built before the slice
+// was overwritten.
+func (st *refState) enableAlt(alt optSet, initTree *model.Node) {
+	st.alt = &alt
+	st.refAlt = ucfg.New()
+	if initTree != nil {
+		c, err := ucfg.NewFrom(initTree.ToGo(), st.os.opts()...)
+		if err != nil {
+			st.refAlt = nil
+			return
+		}
+		st.refAlt = c
+	}
+}
+
+// acceptAlt merges one occurrence into the twin.
+func (st *refState) acceptAlt(build func(opts []ucfg.Option) (*ucfg.Config, error)) {
+	if st.refAlt == nil {
+		return
+	}
+	harness.Safe(func() {
+		c, err := build(st.alt.opts())
+		if err == nil && c != nil {
+			err = st.refAlt.Merge(c, st.alt.opts()...)
+		}
+		if err != nil {
+			st.refAlt = nil
+		}
+	})
 }
 
 func newRefState(os optSet, initTree *model.Node) (*refState, *ucfg.Config, error) {
@@ -704,6 +771,11 @@ func (st *refState) refresh() {
 	} else {
 		st.canonNo, st.canonNoErr = "", errors.New("no twin")
 	}
+	if st.refAlt != nil {
+		st.canonAlt, st.canonAltErr = obs.Top(st.refAlt, st.os.read()...)
+	} else {
+		st.canonAlt, st.canonAltErr = "", errors.New("no twin")
+	}
 }
 
 // monitor holds what was observed so far.
@@ -715,7 +787,9 @@ type monitor struct {
 	prevGot   string
 	havePrev  bool
 	atFailGot string
-	diverged  bool // a config mismatch was reported; stop comparing configs
+	argClass  string // class of the current argument (set by the caller before step)
+	altDiffer bool   // the overwritten options would have made a difference
+	diverged  bool   // a config mismatch was reported; stop comparing configs
 	unread    bool
 	mattered  bool
 }
@@ -775,6 +849,10 @@ func (mo *monitor) step(i int, arg, kind string, ret error, retIdentity bool, cf
 		switch {
 		case gerr != nil && st.canonErr != nil:
 			res.Ev("unreadable_both", 1)
+		case st.alt != nil && st.refAlt != nil && (gerr != nil) == (st.canonAltErr != nil) && (gerr != nil || got == st.canonAlt):
+			mo.diverged = true
+			res.Violate("options-slice-aliased-after-creation", "the flag follows options written into the caller's slice after creation: after argument %d %q the flag config reads as %s (error %v), the reference as %s (error %v), the twin with the overwritten options as %s (error %v); %s",
+				i, arg, got, gerr, st.canon, st.canonErr, st.canonAlt, st.canonAltErr, mo.desc())
 		case st.os.pol != model.PDefault && (gerr != nil) == (st.canonNoErr != nil) && (gerr != nil || got == st.canonNo):
 			mo.diverged = true
 			res.Violate("collector-drops-options:merge-policy", "policy %v ignored while accumulating: after argument %d %q: flag config reads as %s (error %v), the reference as %s (error %v), the twin merged without options as %s (error %v); %s",
@@ -801,6 +879,9 @@ func (mo *monitor) step(i int, arg, kind string, ret error, retIdentity bool, cf
 	if st.canonNoErr == nil && st.canon != st.canonNo {
 		mo.mattered = true
 	}
+	if st.alt != nil && st.canonAltErr == nil && st.canon != st.canonAlt {
+		mo.altDiffer = true
+	}
 	if got == st.canon && (!haveM || got == wantM) {
 		return
 	}
@@ -810,12 +891,19 @@ func (mo *monitor) step(i int, arg, kind string, ret error, retIdentity bool, cf
 	switch {
 	case st.failed && i > st.failIdx && mo.atFailGot != "" && got != mo.atFailGot:
 		res.Violate("config-changed-after-failure", "the first failure was argument %d; %s", st.failIdx, detail)
+	case st.alt != nil && st.canonAltErr == nil && got == st.canonAlt && got != st.canon:
+		// observed == sequential merges with the options the CALLER wrote into
+		// its own slice after the flag had been created
+		res.Violate("options-slice-aliased-after-creation", "the flag follows options (%s) written into the caller's slice after creation (twin with those: %s): %s", st.alt.name()+" sep=/", st.canonAlt, detail)
 	case st.os.pol != model.PDefault && st.canonNoErr == nil && got == st.canonNo && got != st.canon && (!haveM || got == wantMNo):
 		// observed == sequential merges WITHOUT the options != with the options
 		res.Violate("collector-drops-options:merge-policy", "policy %v ignored while accumulating: %s", st.os.pol, detail)
 	case strings.HasPrefix(arg, "=") && got != st.canon:
 		// '=' is the first character: the key is empty, the rest is the value
 		res.Violate("empty-key-argument-mishandled", "%s", detail)
+	case mo.argClass == "fallback-loader" && got != st.canon:
+		// the file has no loader of its own and was read by the "" fallback
+		res.Violate("fallback-loaded-file-mismatch", "%s", detail)
 	case kind == "ignored" && mo.havePrev && got != mo.prevGot:
 		res.Violate("empty-value-not-ignored", "%s", detail)
 	case kind == "bare" && got != st.canon:
@@ -1035,11 +1123,12 @@ func runKV(res *harness.R, r *rand.Rand, idx int, verbose bool) {
 	var fv *flag.FlagValue
 	var cfgPtr *ucfg.Config
 	var set func(string) error
+	given := os.opts() // the case's own slice, handed to the flag as opts...
 	if viaFlagSet {
 		fs := goflag.NewFlagSet("t", goflag.ContinueOnError)
 		fs.SetOutput(io.Discard)
 		fs.Usage = func() {}
-		cfgPtr = flag.ConfigVar(fs, initCfg, "D", "settings", os.opts()...)
+		cfgPtr = flag.ConfigVar(fs, initCfg, "D", "settings", given...)
 		fv, _ = fs.Lookup("D").Value.(*flag.FlagValue)
 		if fv == nil {
 			res.Violate("flagset-registration", "ConfigVar did not register a *flag.FlagValue; %s", desc())
@@ -1053,11 +1142,12 @@ func runKV(res *harness.R, r *rand.Rand, idx int, verbose bool) {
 			return fs.Parse([]string{"-D", a})
 		}
 	} else {
-		fv = flag.NewFlagKeyValue(initCfg, autoBool, os.opts()...)
+		fv = flag.NewFlagKeyValue(initCfg, autoBool, given...)
 		cfgPtr = fv.Config()
 		set = fv.Set
 	}
 	res.SetAdd("mode", mode)
+	scribble(r, st, given, os, initTree)
 	mo := &monitor{res: res, st: st, desc: desc}
 	mo.prime(cfgPtr)
 	var effective []string
@@ -1155,6 +1245,12 @@ func finish(res *harness.R, mo *monitor, os optSet, mode string, effective []str
 		res.Ev("sequences_where_policy_matters", 1)
 	}
 	res.Ev("sequences", 1)
+	if mo.st.alt != nil {
+		res.Ev("sequences_option_slice_overwritten_after_creation", 1)
+		if mo.altDiffer {
+			res.Ev("sequences_where_overwritten_options_would_matter", 1)
+		}
+	}
 	if mo.st.failed {
 		res.Ev("sequences_with_failure", 1)
 	}
@@ -1169,6 +1265,18 @@ func finish(res *harness.R, mo *monitor, os optSet, mode string, effective []str
 	if nt {
 		res.Key(key)
 	}
+}
+
+// scribble: w.p. 1/5 the case overwrites ITS OWN option slice after the flag
+// (collector) was created. The options "given when the flag was created" are
+// the flag's options; what the caller does with its slice later is not.
+func scribble(r *rand.Rand, st *refState, given []ucfg.Option, os optSet, initTree *model.Node) {
+	if len(given) == 0 || r.Intn(5) != 0 {
+		return
+	}
+	alt := os.scribbled()
+	copy(given, alt.opts())
+	st.enableAlt(alt, initTree)
 }
 
 // kvReference executes the statement for one argument and returns its kind.
@@ -1221,6 +1329,9 @@ func kvReference(res *harness.R, st *refState, i int, a kvArg, autoBool bool, ef
 			kind = "fail:merge"
 			return
 		}
+		st.acceptAlt(func(o []ucfg.Option) (*ucfg.Config, error) {
+			return ucfg.NewFrom(map[string]interface{}{key: val}, o...)
+		})
 		*effective = append(*effective, key)
 	})
 	if panicked {
@@ -1240,6 +1351,78 @@ var loaders = map[string]flag.FileLoader{
 }
 
 var exts = []string{".yaml", ".yml", ".json", ".hjson"}
+
+// names outside every table: read by the "" fallback where there is one
+var foreignExts = []string{".conf", ".cfg", ".txt", ""}
+
+// loaderTable is the extensions argument of the file flag. A file is read by
+// the loader registered for its extension, else by the entry under "" (the
+// documented default fallback), else the argument fails.
+type loaderTable struct {
+	kind string
+	m    map[string]flag.FileLoader
+}
+
+func (t loaderTable) lookup(path string) (flag.FileLoader, bool) {
+	if l := t.m[filepath.Ext(path)]; l != nil {
+		return l, false
+	}
+	if l := t.m[""]; l != nil {
+		return l, true
+	}
+	return nil, false
+}
+
+var fallbackLoaders = []struct {
+	name string
+	l    flag.FileLoader
+}{{"yaml", yaml.NewConfigWithFile}, {"json", ujson.NewConfigWithFile}, {"hjson", hjson.NewConfigWithFile}}
+
+// every document is a JSON rendering, which all three loaders read
+func genTable(r *rand.Rand) loaderTable {
+	switch k := r.Intn(100); {
+	case k < 50:
+		return loaderTable{"all4", loaders}
+	case k < 72:
+		m := map[string]flag.FileLoader{}
+		for _, e := range exts {
+			if r.Intn(2) == 0 {
+				m[e] = loaders[e]
+			}
+		}
+		fb := fallbackLoaders[r.Intn(len(fallbackLoaders))]
+		m[""] = fb.l
+		return loaderTable{fmt.Sprintf("subset%d+fallback:%s", len(m)-1, fb.name), m}
+	case k < 88:
+		fb := fallbackLoaders[r.Intn(len(fallbackLoaders))]
+		return loaderTable{"fallback-only:" + fb.name, map[string]flag.FileLoader{"": fb.l}}
+	default:
+		return loaderTable{"yaml+yml+json", map[string]flag.FileLoader{".yaml": loaders[".yaml"], ".yml": loaders[".yml"], ".json": loaders[".json"]}}
+	}
+}
+
+// spliceRefs replaces some string leaves by references to the initial config.
+func spliceRefs(r *rand.Rand, n *model.Node) {
+	for _, k := range n.SortedKeys() {
+		v := n.D[k]
+		if v.IsPrim() {
+			if _, ok := v.Prim.(string); ok && r.Intn(2) == 0 {
+				v.Prim = pick(r, []string{"${q}", "x-${r.s}", "${r.t}"})
+			}
+		} else {
+			spliceRefs(r, v)
+		}
+	}
+	for _, v := range n.A {
+		if v.IsPrim() {
+			if _, ok := v.Prim.(string); ok && r.Intn(3) == 0 {
+				v.Prim = pick(r, []string{"${q}", "x-${r.s}"})
+			}
+		} else if v.IsSub() {
+			spliceRefs(r, v)
+		}
+	}
+}
 
 type fileArg struct {
 	name    string // base name
@@ -1295,9 +1478,19 @@ func genDictChain(r *rand.Rand, n int) []*model.Node {
 func runFiles(res *harness.R, r *rand.Rand, idx int, verbose bool) {
 	os_ := genOptSet(r, false)
 	viaFlagSet := r.Intn(100) < 15
+	table := genTable(r)
 	var initTree *model.Node
 	if r.Intn(10) >= 7 {
 		initTree = gen.TopDict(r, gen.TreeOpts{Depth: 2, Prims: simplePrims}, 2)
+	}
+	if r.Intn(8) == 0 {
+		// documents with ${...} strings: references only if the loader is given
+		// the flag's options
+		os_.varexp = true
+		if os_.pol == model.PReplace {
+			os_.pol = model.PDefault
+		}
+		initTree = model.Dict().Set("q", model.P("v0")).Set("r", model.Dict().Set("s", model.P("v1")).Set("t", model.P(uint64(2))))
 	}
 	// the argument sequence: every argument after the first names an EARLIER
 	// path again w.p. 1/3 (adjacent or with other files in between); a repeated
@@ -1313,8 +1506,13 @@ func runFiles(res *harness.R, r *rand.Rand, idx int, verbose bool) {
 			n++
 		}
 	}
-	dotted := r.Intn(4) == 0
+	dotted := r.Intn(3) == 0
 	trees := genDictChain(r, n)
+	if os_.varexp {
+		for _, t := range trees {
+			spliceRefs(r, t)
+		}
+	}
 	if r.Intn(2) == 0 {
 		// every document carries a non-empty list under one shared key (and the
 		// documents differ there): append/prepend add it once per occurrence,
@@ -1336,6 +1534,9 @@ func runFiles(res *harness.R, r *rand.Rand, idx int, verbose bool) {
 	var files []fileArg
 	for i, t := range trees {
 		ext := pick(r, exts)
+		if table.kind != "all4" && r.Intn(3) == 0 {
+			ext = pick(r, foreignExts)
+		}
 		f := fileArg{name: fmt.Sprintf("f%d%s", i, ext), write: true, intent: "document", tree: t}
 		var b []byte
 		doc := t.ToGo()
@@ -1395,7 +1596,7 @@ func runFiles(res *harness.R, r *rand.Rand, idx int, verbose bool) {
 		for _, fi := range seq {
 			a = append(a, files[fi].name)
 		}
-		return fmt.Sprintf("mode=%s options=%s initial=%s args=[%s] %s files=[%s]", mode, os_.name(), it, strings.Join(a, " "), descReads(sched), strings.Join(l, " "))
+		return fmt.Sprintf("mode=%s options=%s loaders=%s initial=%s args=[%s] %s files=[%s]", mode, os_.name(), table.kind, it, strings.Join(a, " "), descReads(sched), strings.Join(l, " "))
 	}
 	if idx < 2 {
 		res.Sample = desc()
@@ -1428,18 +1629,35 @@ func runFiles(res *harness.R, r *rand.Rand, idx int, verbose bool) {
 	}
 	var fv *flag.FlagValue
 	var set func(string) error
+	given := os_.opts() // the case's own slice, handed to the flag as opts...
 	if viaFlagSet {
 		fs := goflag.NewFlagSet("t", goflag.ContinueOnError)
 		fs.SetOutput(io.Discard)
 		fs.Usage = func() {}
-		fv = flag.ConfigFilesVar(fs, initCfg, "c", "files", loaders, os_.opts()...)
+		// the public wrappers where the table is one of theirs
+		switch table.kind {
+		case "fallback-only:yaml":
+			fv = flag.ConfigYAMLFilesVar(fs, initCfg, "c", "files", given...)
+			res.SetAdd("wrapper", "ConfigYAMLFilesVar")
+		case "fallback-only:json":
+			fv = flag.ConfigJSONFilesVar(fs, initCfg, "c", "files", given...)
+			res.SetAdd("wrapper", "ConfigJSONFilesVar")
+		case "yaml+yml+json":
+			fv = flag.ConfigFilesExtsVar(fs, initCfg, "c", "files", given...)
+			res.SetAdd("wrapper", "ConfigFilesExtsVar")
+		default:
+			fv = flag.ConfigFilesVar(fs, initCfg, "c", "files", table.m, given...)
+			res.SetAdd("wrapper", "ConfigFilesVar")
+		}
 		set = func(a string) error { return fs.Parse([]string{"-c", a}) }
 	} else {
-		fv = flag.NewFlagFiles(initCfg, loaders, os_.opts()...)
+		fv = flag.NewFlagFiles(initCfg, table.m, given...)
 		set = fv.Set
 	}
 	cfgPtr := fv.Config()
 	res.SetAdd("mode", mode)
+	res.SetAdd("loader_table", table.kind)
+	scribble(r, st, given, os_, initTree)
 	mo := &monitor{res: res, st: st, desc: desc}
 	mo.prime(cfgPtr)
 	var effective []string
@@ -1457,6 +1675,7 @@ func runFiles(res *harness.R, r *rand.Rand, idx int, verbose bool) {
 			st.refresh()
 			before = st.canon
 		}
+		mo.argClass = ""
 		var ret error
 		panicked, pv, where := harness.Safe(func() { ret = set(path) })
 		res.Eval(1)
@@ -1467,7 +1686,21 @@ func runFiles(res *harness.R, r *rand.Rand, idx int, verbose bool) {
 		}
 		kind := "post-failure"
 		if !st.failed {
-			kind = fileReference(st, i, path, f, &effective)
+			viaFallback := false
+			kind, viaFallback = fileReference(st, table, i, path, f, &effective)
+			if viaFallback {
+				mo.argClass = "fallback-loader"
+				if kind == "document" {
+					res.Ev("fallback_loads", 1)
+					if filepath.Ext(f.name) != "" {
+						res.Ev("fallback_loads_of_a_foreign_extension", 1)
+						if f.intent == "document-dotted" || os_.varexp {
+							// what the file means depends on the load-time options
+							res.Ev("fallback_loads_of_a_foreign_extension_option_sensitive", 1)
+						}
+					}
+				}
+			}
 			if kind == "ref-panic" {
 				res.Inconc("the reference loader panics on %q although Set did not", f.name)
 				return
@@ -1513,10 +1746,10 @@ func runFiles(res *harness.R, r *rand.Rand, idx int, verbose bool) {
 
 // fileReference loads the file with the loader of its extension and the
 // flag's options and merges it with those options.
-func fileReference(st *refState, i int, path string, f fileArg, effective *[]string) string {
+func fileReference(st *refState, table loaderTable, i int, path string, f fileArg, effective *[]string) (string, bool) {
 	kind := ""
+	loader, viaFallback := table.lookup(path)
 	panicked, _, _ := harness.Safe(func() {
-		loader := loaders[filepath.Ext(path)]
 		if loader == nil {
 			st.fail(i, nil, "no-loader")
 			kind = "fail:no-loader"
@@ -1543,6 +1776,7 @@ func fileReference(st *refState, i int, path string, f fileArg, effective *[]str
 			kind = "fail:merge"
 			return
 		}
+		st.acceptAlt(func(o []ucfg.Option) (*ucfg.Config, error) { return loader(path, o...) })
 		// overlap rule: record the top-level keys of the document
 		if f.tree != nil {
 			for k, v := range f.tree.D {
@@ -1553,9 +1787,9 @@ func fileReference(st *refState, i int, path string, f fileArg, effective *[]str
 		}
 	})
 	if panicked {
-		return "ref-panic"
+		return "ref-panic", viaFallback
 	}
-	return kind
+	return kind, viaFallback
 }
 
 func treePlain(n *model.Node) bool {
@@ -1648,6 +1882,14 @@ func runCollector(res *harness.R, r *rand.Rand, idx int, verbose bool) {
 	}
 	res.SetAdd("mode", "collector")
 	checkGetOptions(res, col, given, os_, desc)
+	if before := probe(col.GetOptions()); true {
+		scribble(r, st, given, os_, initTree)
+		if st.alt != nil {
+			if after := probe(col.GetOptions()); after != before {
+				res.Violate("options-slice-aliased-after-creation:getoptions", "after the caller overwrote its own option slice GetOptions() behaves like %s, before like %s (given at creation: %s); %s", after, before, os_.name(), desc())
+			}
+		}
+	}
 	cfgPtr := col.Config()
 	if cfgPtr == nil {
 		res.Violate("collector-nil-config", "Config() is nil right after NewCollector; %s", desc())
@@ -1695,6 +1937,10 @@ func runCollector(res *harness.R, r *rand.Rand, idx int, verbose bool) {
 			case "cfg":
 				kind = "value"
 				st.accept(i, c1, c2, op.tree)
+				if !st.failed {
+					tr := op.tree
+					st.acceptAlt(func(o []ucfg.Option) (*ucfg.Config, error) { return ucfg.NewFrom(tr.ToGo(), o...) })
+				}
 				if st.failed {
 					kind = "fail:merge"
 				} else if len(op.tree.A) > 0 {
